@@ -60,6 +60,9 @@ pub enum Term {
     StreamStdin,
     StreamStdout,
     StreamStderr,
+    /// popen(), then drop the Popen while the child is still running: the
+    /// drop waits for the child unless the command was marked detached()
+    PopenDrop,
 }
 #[derive(Clone, Debug, Serialize, Deserialize)]
 pub struct BuilderCase {
@@ -92,6 +95,7 @@ struct Model {
     stdin_data: Option<Bytes>,
     stdout: SKind,
     stderr: SKind,
+    detached: bool,
 }
 
 fn parent_env() -> BTreeMap<Bytes, Bytes> {
@@ -162,7 +166,8 @@ impl Model {
                     return Err("output stream set twice");
                 }
             }
-            BOp::Detached | BOp::CloneKeepOriginal | BOp::CloneKeepCopy => {}
+            BOp::Detached => self.detached = true,
+            BOp::CloneKeepOriginal | BOp::CloneKeepCopy => {}
         }
         Ok(())
     }
@@ -170,7 +175,7 @@ impl Model {
     fn terminate(&mut self, t: Term) -> Result<(), &'static str> {
         let data = self.stdin_data.is_some();
         match t {
-            Term::Popen | Term::Join => {
+            Term::Popen | Term::Join | Term::PopenDrop => {
                 if data {
                     return Err("input data given to a terminator that cannot deliver it");
                 }
@@ -288,10 +293,80 @@ fn apply_real(e: Exec, op: &BOp, env: &Env, files: &mut Files) -> Exec {
 }
 
 /// Run a finished Exec with a terminator; returns Err(panic message) or the report.
+/// Drop a Popen whose child stays alive until `release` exists and decide
+/// whether the drop waited for the child.
+fn ip_now() -> i64 {
+    crate::interpose::real_now_ns() / 1_000_000
+}
+
+fn drop_observe(p: subprocess::Popen, release: &std::path::Path, expect_detached: bool) -> Result<(), String> {
+    use std::sync::atomic::{AtomicBool, AtomicI32, Ordering::SeqCst};
+    use std::sync::Arc;
+    let pid = p.pid();
+    let done = Arc::new(AtomicBool::new(false));
+    let tid = Arc::new(AtomicI32::new(0));
+    let (d2, t2) = (Arc::clone(&done), Arc::clone(&tid));
+    let h = std::thread::spawn(move || {
+        t2.store(unsafe { libc::syscall(libc::SYS_gettid) } as i32, SeqCst);
+        drop(p);
+        d2.store(true, SeqCst);
+    });
+    let child_there = |pid: u32| -> bool { matches!(proc_state(pid), Some(c) if c != 'Z' && c != 'X') };
+    let mut verdict = Ok(());
+    if expect_detached {
+        // must come back although the child keeps running; a dropping thread seen
+        // blocked in wait4 (syscall 61) on two looks 100 ms apart is waiting for it
+        let mut first_seen: Option<i64> = None;
+        let t0 = ip_now();
+        while !done.load(SeqCst) && ip_now() - t0 < 10_000 {
+            let t = tid.load(SeqCst);
+            let sc = if t != 0 { std::fs::read_to_string(format!("/proc/self/task/{}/syscall", t)).unwrap_or_default() } else { String::new() };
+            if sc.starts_with("61 ") {
+                match first_seen {
+                    None => first_seen = Some(ip_now()),
+                    Some(f) if ip_now() - f >= 100 => {
+                        verdict = Err(format!("drop: the command is detached but dropping its Popen waits for the child (dropping thread blocked in wait4, child {:?} alive: {})", pid, pid.map(child_there).unwrap_or(false)));
+                        break;
+                    }
+                    _ => {}
+                }
+            } else {
+                first_seen = None;
+            }
+            crate::interpose::real_sleep_ms(10);
+        }
+    } else {
+        // a drop that does not wait is back at once; 60 ms without it means it waits
+        wait_until(60, || done.load(SeqCst));
+        if done.load(SeqCst) {
+            if let Some(pid) = pid {
+                if child_there(pid) && !release.exists() {
+                    verdict = Err(format!("drop: the command is not detached but dropping its Popen returned while the child (pid {}) was still running", pid));
+                }
+            }
+        }
+    }
+    let _ = std::fs::write(release, b"go");
+    let _ = h.join();
+    if let Some(pid) = pid {
+        // a detached child is ours to reap
+        wait_until(10_000, || !child_there(pid));
+    }
+    verdict
+}
+
 fn run_term(e: Exec, t: Term, prefix: &std::path::Path, detached: bool) -> Result<Option<Report>, String> {
     PANIC_MSG.with(|m| *m.borrow_mut() = None);
+    let release = std::path::PathBuf::from(format!("{}.release", prefix.display()));
     let r = catch_unwind(AssertUnwindSafe(|| -> Result<(), String> {
         match t {
+            Term::PopenDrop => {
+                let mut p = e.popen().map_err(|e| e.to_string())?;
+                drop(p.stdin.take());
+                drop(p.stdout.take());
+                drop(p.stderr.take());
+                drop_observe(p, &release, detached)?;
+            }
             Term::Popen => {
                 let mut p = e.popen().map_err(|e| e.to_string())?;
                 drop(p.stdin.take());
@@ -334,6 +409,7 @@ fn run_term(e: Exec, t: Term, prefix: &std::path::Path, detached: bool) -> Resul
     }));
     match r {
         Err(_) => Err(PANIC_MSG.with(|m| m.borrow_mut().take()).unwrap_or_else(|| "panic".into())),
+        Ok(Err(e)) if e.starts_with("drop: ") => Err(e),
         Ok(Err(e)) => Err(format!("error: {}", e)),
         // a non-detached child has exited by the time the terminator returns: its report is there
         Ok(Ok(())) => Ok(read_reports(prefix, 1, if t == Term::Communicate || detached { 10_000 } else { 1_000 }).into_iter().next()),
@@ -456,8 +532,8 @@ pub fn check_case(ctx: &Ctx, case: &BuilderCase, rep: &mut CaseReport) -> CaseRe
     let result = (|| -> CaseResult {
         // start
         let (mut exec, argv0, mut model) = match &case.shell {
-            Some(s) => (Exec::shell(OsStr::from_bytes(s)), b"sh".to_vec(), Model { args: vec![b"-c".to_vec(), s.clone()], env: None, cwd: None, stdin: SKind::None, stdin_data: None, stdout: SKind::None, stderr: SKind::None }),
-            None => (Exec::cmd(&env.helper), env.helper.as_os_str().as_bytes().to_vec(), Model { args: vec![], env: None, cwd: None, stdin: SKind::None, stdin_data: None, stdout: SKind::None, stderr: SKind::None }),
+            Some(s) => (Exec::shell(OsStr::from_bytes(s)), b"sh".to_vec(), Model { args: vec![b"-c".to_vec(), s.clone()], env: None, cwd: None, stdin: SKind::None, stdin_data: None, stdout: SKind::None, stderr: SKind::None, detached: false }),
+            None => (Exec::cmd(&env.helper), env.helper.as_os_str().as_bytes().to_vec(), Model { args: vec![], env: None, cwd: None, stdin: SKind::None, stdin_data: None, stdout: SKind::None, stderr: SKind::None, detached: false }),
         };
         let mut files = Files { stdin_file: None, stdout_file: None, stderr_file: None };
         let mut side: Vec<(Exec, Model, (Option<(u64, u64)>, Option<(u64, u64)>, Option<(u64, u64)>))> = vec![];
@@ -541,7 +617,16 @@ pub fn check_case(ctx: &Ctx, case: &BuilderCase, rep: &mut CaseReport) -> CaseRe
         // side copies are run with popen-like terminator `Join` (no data) or Capture (data)
         let mut runs: Vec<(Exec, Model, Term, Files, String)> = vec![];
         for (n, (e, m, fids)) in side.into_iter().enumerate() {
-            let t = if m.stdin_data.is_some() { Term::Capture } else if m.stdin == SKind::Pipe { Term::StreamStdin } else { Term::Join };
+            let t = if m.stdin_data.is_some() {
+                Term::Capture
+            } else if m.detached || n % 2 == 1 {
+                // does the copy still know whether it is detached?
+                Term::PopenDrop
+            } else if m.stdin == SKind::Pipe {
+                Term::StreamStdin
+            } else {
+                Term::Join
+            };
             runs.push((e, m, t, Files { stdin_file: fids.0, stdout_file: fids.1, stderr_file: fids.2 }, format!("clone#{}", n)));
         }
         runs.push((exec, model, case.term, files, "main".into()));
@@ -550,9 +635,15 @@ pub fn check_case(ctx: &Ctx, case: &BuilderCase, rep: &mut CaseReport) -> CaseRe
         for (n, (e, mut m, t, files, which)) in runs.into_iter().enumerate() {
             let prefix = sc.path(&format!("rep{}", n));
             let ps = prefix.to_string_lossy().into_owned();
-            set_mode(&bindir, "report", &[&ps, "0", "readstdin"]);
+            if t == Term::PopenDrop {
+                let rel = format!("{}.release", ps);
+                set_mode(&bindir, "report", &[&ps, "0", "readstdin", &rel]);
+            } else {
+                set_mode(&bindir, "report", &[&ps, "0", "readstdin"]);
+            }
             let expect = m.terminate(t);
-            let (got, deadlock) = crate::hang::guard(|| run_term(e, t, &prefix, detached_any));
+            let run_detached = if t == Term::PopenDrop { m.detached } else { detached_any };
+            let (got, deadlock) = crate::hang::guard(|| run_term(e, t, &prefix, run_detached));
             reap_all();
             if let Some(d) = deadlock {
                 return Err(Fail::new("C16:terminator-hangs", format!("[{}] terminator {:?} never returns (model: {}): {}", which, t, if expect.is_err() { "must be refused" } else { "runs" }, d)));
@@ -563,6 +654,9 @@ pub fn check_case(ctx: &Ctx, case: &BuilderCase, rep: &mut CaseReport) -> CaseRe
                 }
                 (Err(why), other) => {
                     return Err(Fail::new("C16:terminator-not-refused", format!("[{}] {:?} must be refused ({}), got {:?}", which, t, why, other.map(|r| r.is_some()))));
+                }
+                (Ok(()), Err(msg)) if msg.starts_with("drop: ") => {
+                    return Err(Fail::new(if m.detached { "C16:detached-lost" } else { "C16:drop-did-not-wait" }, format!("[{}] {}", which, msg)));
                 }
                 (Ok(()), Err(msg)) => {
                     return Err(Fail::new(if msg.starts_with("error:") { "C16:unexpected-error" } else { "C16:unexpected-panic" }, format!("[{}] terminator {:?}: {}", which, t, msg)));
@@ -629,7 +723,7 @@ fn op_strategy() -> impl Strategy<Value = BOp> {
 }
 
 pub fn case_strategy() -> impl Strategy<Value = BuilderCase> {
-    let term = prop_oneof![Just(Term::Popen), Just(Term::Join), Just(Term::Capture), Just(Term::Communicate), Just(Term::StreamStdin), Just(Term::StreamStdout), Just(Term::StreamStderr)];
+    let term = prop_oneof![Just(Term::Popen), Just(Term::Join), Just(Term::Capture), Just(Term::Communicate), Just(Term::StreamStdin), Just(Term::StreamStdout), Just(Term::StreamStderr), Just(Term::PopenDrop)];
     (prop_oneof![5 => Just(None), 1 => bytes_strategy(40).prop_map(Some)], prop::collection::vec(op_strategy(), 0..16), term).prop_map(|(shell, ops, term)| {
         // construction rules (not filtering): keep the history inside the part
         // of the API whose behaviour is specified and that cannot block the harness
